@@ -1,5 +1,5 @@
 import StepModel.P21.Writer
-import StepModel.P21.ReaderLemmas5
+import StepModel.P21.ReaderLemmas7
 import StepModel.Generated.P21RWGen
 /-! # C01 — exchange files survive read-then-write: property theorems
 
@@ -124,6 +124,61 @@ theorem C01_read_record_of_params {F} (env : Env F) (strict : Bool) (ps : List (
       .ok ⟨.null, ps.map (·.v), G ((40 :: renderParams ps).reverse ++ l) rest sk'⟩ :=
   instSTEPread_params env strict ps hne hok l sk rest
 
+/-- the element kinds of aggregates for which the element loop is proved: INTEGER, REAL, STRING, ENUMERATION / BOOLEAN /
+    LOGICAL, BINARY and entity references, each under the same provisos as the attribute of that kind, with any layout
+    before and after the element -/
+inductive ElemCovered {F} (env : Env F) : ElemTy → ElemG F → Prop where
+  | integer (tok : List Byte) (htok : isInteger tok = true) (hlo : IStream.longMin ≤ denoteInteger tok)
+      (hhi : denoteInteger tok < IStream.longMax) (before after : List Byte) (hb : Seps before) (ha : Seps after) :
+      ElemCovered env .integer { tok := tok, before := before, after := after, v := .atom (.int (denoteInteger tok)) }
+  | real (tok : List Byte) (dec : Decimal) (v : F) (htok : isReal tok = true) (hden : denoteReal tok = some dec)
+      (hv : env.ops.ofDecimal dec = some v) (hnn : env.ops.isRealNull v = false)
+      (hbuf : env.lex.realBuf = 0 ∨ tok.length < env.lex.realBuf) (before after : List Byte) (hb : Seps before) (ha : Seps after) :
+      ElemCovered env .real { tok := tok, before := before, after := after, v := .atom (.real v) }
+  | string (b : List Byte) (hsb : StringBody b) (before after : List Byte) (hb : Seps before) (ha : Seps after) :
+      ElemCovered env .string { tok := 39 :: (b ++ [39]), before := before, after := after, v := .atom (.str (39 :: (b ++ [39]))) }
+  | enum (ty : ElemTy) (het : EnumTy ty) (name : List Byte) (i : Nat) (hne : name ≠ []) (hname : name.all pw = true)
+      (hfind : findName (enumKindOf ty).table (name.map toUpper) = some i) (hset : (enumKindOf ty).isUnsetIdx i = false)
+      (before after : List Byte) (hb : Seps before) (ha : Seps after) :
+      ElemCovered env ty { tok := 46 :: (name ++ [46]), before := before, after := after, v := .atom (.enum i) }
+  | binary (hex : List Byte) (hne : hex ≠ []) (hhex : hex.all isXDigit = true)
+      (before after : List Byte) (hb : Seps before) (ha : Seps after) :
+      ElemCovered env .binary { tok := 34 :: (hex ++ [34]), before := before, after := after, v := .atom (.bin hex) }
+  | ref (tg : String) (ds : List Byte) (hne : ds ≠ []) (hds : ds.all isDigit = true)
+      (hhi : ((digitsVal ds 0 : Nat) : Int) ≤ IStream.intMax)
+      (hfound : refLookup env.lookup tg ((digitsVal ds 0 : Nat) : Int) = .found)
+      (before after : List Byte) (hb : Seps before) (ha : Seps after) :
+      ElemCovered env (.entity tg) { tok := 35 :: ds, before := before, after := after,
+                                     v := .atom (.ref ((digitsVal ds 0 : Nat) : Int)) }
+
+theorem elemCovered_rd {F} (env : Env F) (hcfg : env.lex.criSkipsComments = true) (hagg : env.cfg.aggrSkipsComments = true)
+    (ety : ElemTy) (e : ElemG F) (h : ElemCovered env ety e) : ElemRd env ety e := by
+  cases h with
+  | integer tok htok hlo hhi before after hb ha => exact ElemRd.integer env hcfg hagg tok htok hlo hhi before after hb ha
+  | real tok dec v htok hden hv hnn hbuf before after hb ha =>
+    exact ElemRd.real env hcfg hagg tok dec v htok hden hv hnn hbuf before after hb ha
+  | string b hsb before after hb ha => exact ElemRd.string env hcfg hagg b hsb before after hb ha
+  | enum ty het name i hne hname hfind hset before after hb ha =>
+    exact ElemRd.enum env hcfg hagg _ het name i hne hname hfind hset before after hb ha
+  | binary hex hne hhex before after hb ha => exact ElemRd.binary env hcfg hagg hex hne hhex before after hb ha
+  | ref tg ds hne hds hhi hfound before after hb ha =>
+    exact ElemRd.ref env hcfg hagg tg ds hne hds hhi hfound before after hb ha
+
+theorem elemCovered_scan {F} (env : Env F) (ety : ElemTy) (e : ElemG F) (h : ElemCovered env ety e) : ElemScan e := by
+  cases h with
+  | integer tok htok hlo hhi before after hb ha => exact ⟨(Passes.all_plain _ (isInteger_plain _ htok)).toS, hb, ha⟩
+  | real tok dec v htok hden hv hnn hbuf before after hb ha => exact ⟨(Passes.all_plain _ (isReal_plain _ htok)).toS, hb, ha⟩
+  | string b hsb before after hb ha => exact ⟨PassesS.string b hsb, hb, ha⟩
+  | enum ty het name i hne hname hfind hset before after hb ha =>
+    exact ⟨(Passes.append (a := [46]) (Passes.plain 46 (by decide))
+      (Passes.append (Passes.all_plain _ (all_imp (fun c => pw_plain) _ hname)) (Passes.plain 46 (by decide)))).toS, hb, ha⟩
+  | binary hex hne hhex before after hb ha =>
+    exact ⟨(Passes.append (a := [34]) (Passes.plain 34 (by decide))
+      (Passes.append (Passes.all_plain _ (all_imp (fun c => xdigit_plain) _ hhex)) (Passes.plain 34 (by decide)))).toS, hb, ha⟩
+  | ref tg ds hne hds hhi hfound before after hb ha =>
+    exact ⟨(Passes.append (a := [35]) (Passes.plain 35 (by decide))
+      (Passes.all_plain _ (all_imp (fun c => digit_plain) _ hds))).toS, hb, ha⟩
+
 /-- the parameter kinds for which `ParamOK` is proved: `$` for an OPTIONAL attribute of any type, `*` for a derived
     attribute, an INTEGER token of the grammar (optional sign, digits) whose value fits `long` and is not the in-band
     null `LONG_MAX`, an entity reference `#digits` (forward or backward) to an instance the manager holds and whose type
@@ -131,7 +186,9 @@ theorem C01_read_record_of_params {F} (env : Env F) (strict : Bool) (ps : List (
     (including none) and any layout around every element, a STRING literal of the grammar (every control directive in
     any position, e.g. `'see \S\''`), `.ITEM.` of an ENUMERATION / BOOLEAN / LOGICAL attribute for a declared item (either
     letter case), a BINARY `"hex"`, a REAL token of the grammar whose denotation converts (`FloatOps.ofDecimal`) to a double
-    other than the in-band null — each with any layout before and after -/
+    other than the in-band null, a NUMBER token of the `real` or of the `integer` grammar with the same proviso, an
+    aggregate of any number of elements (including none) of any of the kinds of `ElemCovered` with any layout around
+    every element — each with any layout before and after -/
 inductive Covered {F} (env : Env F) : Param F → Prop where
   | dollar (a : AttrD) (hopt : a.optional = true) (hder : a.derived = false) (hred : a.redefining = false)
       (before after : List Byte) (hb : Seps before) (ha : Seps after) :
@@ -173,6 +230,15 @@ inductive Covered {F} (env : Env F) : Param F → Prop where
       (hbuf : env.lex.realBuf = 0 ∨ tok.length < env.lex.realBuf)
       (before after : List Byte) (hbf : Seps before) (ha : Seps after) :
       Covered env { a := a, v := .one (.atom (.real v)), tok := tok, before := before, after := after }
+  | aggr (a : AttrD) (ety : ElemTy) (hty : a.ty = .aggr ety) (hder : a.derived = false) (hred : a.redefining = false)
+      (es : List (ElemG F)) (inner : List Byte) (hok : ∀ e ∈ es, ElemCovered env ety e) (hin : Seps inner)
+      (before after : List Byte) (hb : Seps before) (ha : Seps after) :
+      Covered env { a := a, v := .aggr (es.map (·.v)), tok := aggrTextG es inner, before := before, after := after }
+  | number (a : AttrD) (hty : a.ty = .one .number) (hder : a.derived = false) (hred : a.redefining = false)
+      (tok : List Byte) (dec : Decimal) (v : F) (htok : isReal tok = true ∨ isInteger tok = true)
+      (hden : denoteReal tok = some dec) (hv : env.ops.ofDecimal dec = some v) (hnn : env.ops.isRealNull v = false)
+      (before after : List Byte) (hbf : Seps before) (ha : Seps after) :
+      Covered env { a := a, v := .one (.atom (.real v)), tok := tok, before := before, after := after }
 
 /-- every covered parameter is read to its value wherever it stands -/
 theorem covered_ok {F} (env : Env F) (strict : Bool) (hcfg : env.lex.criSkipsComments = true)
@@ -194,6 +260,15 @@ theorem covered_ok {F} (env : Env F) (strict : Bool) (hcfg : env.lex.criSkipsCom
     exact ParamOK.binary env strict hcfg a hty hder hred hex hne hhex before after hbf ha
   | real a hty hder hred tok dec v htok hden hv hnn hbuf before after hbf ha =>
     exact ParamOK.real env strict hcfg a hty hder hred tok dec v htok hden hv hnn hbuf before after hbf ha
+  | aggr a ety hty hder hred es inner hok hin before after hb ha =>
+    refine ⟨hred, ⟨40, (aggrTextG es inner).tail, by cases es <;> rfl, by decide, by decide⟩, hb, fun l sk d rest hd => ?_⟩
+    obtain ⟨sk', _, h⟩ := attr_aggr env strict a ety hty hder hcfg hagg es inner
+      (fun e he => elemCovered_rd env hcfg hagg ety e (hok e he)) hin l sk after ha d rest hd
+    exact ⟨sk', h⟩
+  | number a hty hder hred tok dec v htok hden hv hnn before after hbf ha =>
+    obtain ⟨c, u, hcu, hcs, _, _, _, h47⟩ := number_head tok htok
+    exact ⟨hred, ⟨c, u, hcu, hcs, h47⟩, hbf, fun l sk d rest hd =>
+      ⟨sk, attr_number env strict a hty hder hcfg tok dec v htok hden hv hnn l sk after ha d rest hd⟩⟩
 
 /-- the same with the format flag tracked: a covered parameter is read without a message and leaves `skipws` as it was
     or off (STRING) -/
@@ -221,9 +296,14 @@ theorem covered_rd {F} (env : Env F) (strict : Bool) (hcfg : env.lex.criSkipsCom
     exact ⟨sk, Or.inl rfl, attr_binary env strict a hty hder hcfg hex hne hhex l sk after ha d rest hd⟩
   | real a hty hder hred tok dec v htok hden hv hnn hbuf before after hbf ha =>
     exact ⟨sk, Or.inl rfl, attr_real env strict a hty hder hcfg tok dec v htok hden hv hnn hbuf l sk after ha d rest hd⟩
+  | aggr a ety hty hder hred es inner hok hin before after hb ha =>
+    exact attr_aggr env strict a ety hty hder hcfg hagg es inner
+      (fun e he => elemCovered_rd env hcfg hagg ety e (hok e he)) hin l sk after ha d rest hd
+  | number a hty hder hred tok dec v htok hden hv hnn before after hbf ha =>
+    exact ⟨sk, Or.inl rfl, attr_number env strict a hty hder hcfg tok dec v htok hden hv hnn l sk after ha d rest hd⟩
 
-/-- **read (render p ℓ) = p for records over the covered kinds** (`_partial`: NUMBER attributes, aggregates of
-    element types other than INTEGER, selects are *not* covered by this theorem — for them `ParamOK` is a
+/-- **read (render p ℓ) = p for records over the covered kinds** (`_partial`: aggregates of NUMBER, of aggregates and of selects, and
+    selects are *not* covered by this theorem — for them `ParamOK` is a
     hypothesis of `C01_read_record_of_params`; they are tied by correspondence only).  Every dictionary, every reader
     configuration in which `CheckRemainingInput` and the aggregate element loops skip comments, every layout, any number of parameters. -/
 theorem C01_read_record_partial {F} (env : Env F) (strict : Bool) (hcfg : env.lex.criSkipsComments = true)
@@ -250,18 +330,35 @@ example (env : Env Nat) : ∀ p ∈ [exP1, exP2], Covered env p := by
 
 /-! ### what the writer emits is read back (record level) -/
 
-/-- attribute/value pairs of the covered kinds as they sit in memory -/
-inductive Storable {F} : AttrD → MVal F → Prop where
-  | null (a : AttrD) (hopt : a.optional = true) (hder : a.derived = false) (hred : a.redefining = false) : Storable a (nullOf a)
-  | derived (a : AttrD) (hder : a.derived = true) (hred : a.redefining = false) : Storable a .derived
+/-- attribute/value pairs of the covered kinds as they sit in memory: unset for an OPTIONAL attribute, derived, an
+    INTEGER within `long` minus the in-band null, a STRING in its encoded form `'…'` (what stepcode keeps), a non-empty
+    BINARY, a reference to an instance the manager holds and whose type conforms -/
+inductive Storable {F} (env : Env F) : AttrD → MVal F → Prop where
+  | null (a : AttrD) (hopt : a.optional = true) (hder : a.derived = false) (hred : a.redefining = false) : Storable env a (nullOf a)
+  | derived (a : AttrD) (hder : a.derived = true) (hred : a.redefining = false) : Storable env a .derived
   | int (a : AttrD) (hty : a.ty = .one .integer) (hder : a.derived = false) (hred : a.redefining = false)
-      (i : Int) (hlo : IStream.longMin ≤ i) (hhi : i < IStream.longMax) : Storable a (.one (.atom (.int i)))
+      (i : Int) (hlo : IStream.longMin ≤ i) (hhi : i < IStream.longMax) : Storable env a (.one (.atom (.int i)))
+  | str (a : AttrD) (hty : a.ty = .one .string) (hder : a.derived = false) (hred : a.redefining = false)
+      (b : List Byte) (hb : StringBody b) : Storable env a (.one (.atom (.str (39 :: (b ++ [39])))))
+  | bin (a : AttrD) (hty : a.ty = .one .binary) (hder : a.derived = false) (hred : a.redefining = false)
+      (hex : List Byte) (hne : hex ≠ []) (hhex : hex.all isXDigit = true) : Storable env a (.one (.atom (.bin hex)))
+  | ref (a : AttrD) (tg : String) (hty : a.ty = .one (.entity tg)) (hder : a.derived = false) (hred : a.redefining = false)
+      (id : Int) (h0 : 0 ≤ id) (hhi : id ≤ IStream.intMax) (hfound : refLookup env.lookup tg id = .found) :
+      Storable env a (.one (.atom (.ref id)))
 
 /-- the parameter a stored value is written as (no layout) -/
 def paramOf {F} (ops : FloatOps F) (cfg : RWCfg) (d : Dict) (a : AttrD) (v : MVal F) : Param F :=
   { a := a, v := v, tok := writeAttr ops cfg d a v, before := [], after := [] }
 
-theorem storable_covered {F} (env : Env F) (ops : FloatOps F) (cfg : RWCfg) (d : Dict) (a : AttrD) (v : MVal F) (h : Storable a v) :
+theorem showInt_nonneg (i : Int) (h0 : 0 ≤ i) :
+    ∃ ds, showInt i = ds ∧ ds ≠ [] ∧ ds.all isDigit = true ∧ ((digitsVal ds 0 : Nat) : Int) = i := by
+  obtain ⟨h1, h2, h3⟩ := toDigits_spec i.natAbs
+  refine ⟨_, rfl, ?_, ?_, ?_⟩ <;> unfold showInt <;> simp only [show ¬ i < 0 from by omega, if_false]
+  · exact h3
+  · exact h2
+  · rw [h1]; omega
+
+theorem storable_covered {F} (env : Env F) (ops : FloatOps F) (cfg : RWCfg) (d : Dict) (a : AttrD) (v : MVal F) (h : Storable env a v) :
     Covered env (paramOf ops cfg d a v) := by
   cases h with
   | null hopt hder hred =>
@@ -281,22 +378,42 @@ theorem storable_covered {F} (env : Env F) (ops : FloatOps F) (cfg : RWCfg) (d :
       [] [] (Seps.blanks [] (by simp)) (Seps.blanks [] (by simp))
     rw [hs.2] at hc
     exact hc
+  | str hty hder hred b hb =>
+    have : writeAttr ops cfg d a (.one (.atom (.str (39 :: (b ++ [39])))) : MVal F) = 39 :: (b ++ [39]) := by
+      simp [writeAttr, hty, writeElemAttr, writeAtomCore]
+    unfold paramOf; rw [this]
+    exact Covered.string a hty hder hred b hb [] [] (Seps.blanks [] (by simp)) (Seps.blanks [] (by simp))
+  | bin hty hder hred hex hne hhex =>
+    have he : hex.isEmpty = false := by cases hex <;> simp_all
+    have : writeAttr ops cfg d a (.one (.atom (.bin hex)) : MVal F) = 34 :: (hex ++ [34]) := by
+      simp [writeAttr, hty, writeElemAttr, writeAtomCore, writeBinary, he]
+    unfold paramOf; rw [this]
+    exact Covered.binary a hty hder hred hex hne hhex [] [] (Seps.blanks [] (by simp)) (Seps.blanks [] (by simp))
+  | ref tg hty hder hred id h0 hhi hfound =>
+    obtain ⟨ds, hds, hne, hdig, hval⟩ := showInt_nonneg id h0
+    have : writeAttr ops cfg d a (.one (.atom (.ref id)) : MVal F) = 35 :: ds := by
+      simp [writeAttr, hty, writeElemAttr, writeAtomCore, hds]
+    unfold paramOf; rw [this]
+    have hc := Covered.ref (env := env) a tg hty hder hred ds hne hdig (by rw [hval]; exact hhi) (by rw [hval]; exact hfound)
+      [] [] (Seps.blanks [] (by simp)) (Seps.blanks [] (by simp))
+    rw [hval] at hc
+    exact hc
 
 /-- attribute list and value list of a record whose every pair is storable -/
-inductive StorableRec {F} : List AttrD → List (MVal F) → Prop where
-  | one (a : AttrD) (v : MVal F) (h : Storable a v) : StorableRec [a] [v]
-  | cons (a : AttrD) (v : MVal F) (as : List AttrD) (vs : List (MVal F)) (h : Storable a v) (ht : StorableRec as vs) :
-      StorableRec (a :: as) (v :: vs)
+inductive StorableRec {F} (env : Env F) : List AttrD → List (MVal F) → Prop where
+  | one (a : AttrD) (v : MVal F) (h : Storable env a v) : StorableRec env [a] [v]
+  | cons (a : AttrD) (v : MVal F) (as : List AttrD) (vs : List (MVal F)) (h : Storable env a v) (ht : StorableRec env as vs) :
+      StorableRec env (a :: as) (v :: vs)
 
 def paramsOf {F} (ops : FloatOps F) (cfg : RWCfg) (d : Dict) : List AttrD → List (MVal F) → List (Param F)
   | a :: as, v :: vs => paramOf ops cfg d a v :: paramsOf ops cfg d as vs
   | _, _ => []
 
-theorem storable_red {F} {a : AttrD} {v : MVal F} (h : Storable a v) : a.redefining = false := by
+theorem storable_red {F} {env : Env F} {a : AttrD} {v : MVal F} (h : Storable env a v) : a.redefining = false := by
   cases h <;> assumption
 
 theorem paramsOf_spec {F} (env : Env F) (ops : FloatOps F) (cfg : RWCfg) (d : Dict) (as : List AttrD) (vs : List (MVal F))
-    (h : StorableRec as vs) :
+    (h : StorableRec env as vs) :
     paramsOf ops cfg d as vs ≠ [] ∧ (paramsOf ops cfg d as vs).map (·.a) = as ∧ (paramsOf ops cfg d as vs).map (·.v) = vs ∧
     (∀ p ∈ paramsOf ops cfg d as vs, Covered env p) ∧
     (∀ i, writeAttrsSimple ops cfg d (i + 1) as vs ++ [41] = 44 :: renderParams (paramsOf ops cfg d as vs)) ∧
@@ -339,12 +456,12 @@ theorem paramsOf_spec {F} (env : Env F) (ops : FloatOps F) (cfg : RWCfg) (d : Di
       simp only [writeAttrsSimple, hr, Bool.false_eq_true, if_false, paramsOf, hq, renderParams, paramOf] at this ⊢
       simp [List.append_assoc, this, hq]
 
-/-- **read ∘ write at record level** (`_partial`: the covered kinds — `$` on OPTIONAL attributes, `*` on derived ones,
-    INTEGER values within `long` minus the sentinel): what `SDAI_Application_instance::STEPwrite` emits for the parameter
+/-- **read ∘ write at record level** (`_partial`: the kinds of `Storable` — `$` on OPTIONAL attributes, `*` on derived ones,
+    INTEGER values within `long` minus the sentinel, STRINGs, BINARYs, references): what `SDAI_Application_instance::STEPwrite` emits for the parameter
     list of a record is read back by `SDAI_Application_instance::STEPread` to exactly the stored values with severity
     NULL, wherever the record stands in a file; hence writing again reproduces the same bytes. -/
 theorem C01_record_write_read_partial {F} (env : Env F) (strict : Bool) (hcfg : env.lex.criSkipsComments = true)
-    (hagg : env.cfg.aggrSkipsComments = true) (cfg : RWCfg) (as : List AttrD) (vs : List (MVal F)) (h : StorableRec as vs) (l : List Byte) (sk : Bool) (rest : List Byte) :
+    (hagg : env.cfg.aggrSkipsComments = true) (cfg : RWCfg) (as : List AttrD) (vs : List (MVal F)) (h : StorableRec env as vs) (l : List Byte) (sk : Bool) (rest : List Byte) :
     ∃ s', instSTEPread env strict as
         (G l (40 :: (writeAttrsSimple env.ops cfg env.dict 0 as vs ++ 41 :: rest)) sk) = .ok ⟨.null, vs, s'⟩ := by
   obtain ⟨hne, hma, hmv, hcov, _, h0⟩ := paramsOf_spec env env.ops cfg env.dict as vs h
@@ -379,6 +496,10 @@ theorem covered_scan {F} (env : Env F) (p : Param F) (h : Covered env p) : Param
       (Passes.append (Passes.all_plain _ (all_imp (fun c => xdigit_plain) _ hhex)) (Passes.plain 34 (by decide)))).toS, hbf, ha⟩
   | real a hty hder hred tok dec v htok hden hv hnn hbuf before after hbf ha =>
     exact ⟨(Passes.all_plain _ (isReal_plain _ htok)).toS, hbf, ha⟩
+  | aggr a ety hty hder hred es inner hok hin before after hb ha =>
+    exact ⟨(Passes.aggrTextG es inner (fun e he => elemCovered_scan env ety e (hok e he)) hin).toS, hb, ha⟩
+  | number a hty hder hred tok dec v htok hden hv hnn before after hbf ha =>
+    exact ⟨(Passes.all_plain _ (by rcases htok with h | h; exact isReal_plain _ h; exact isInteger_plain _ h)).toS, hbf, ha⟩
 
 /-- one record `#id = NAME ( parameters ) ;` of the fragment, with the layout that follows its `;`: the id is a
     non-empty digit string whose value fits `int`; the keyword (either letter case) names a non-abstract entity of the
@@ -389,7 +510,7 @@ def RecCovered {F} (env : Env F) (rg : Rec F × List Byte) : Prop :=
     ∀ q ∈ rg.1.ps, Covered env q
 
 /-- **read (render p ℓ) = p at file level** (`_partial`, see `Covered` for the parameter kinds and `RecCovered` for the
-    records; not covered: NUMBER attributes, aggregates of element types other than INTEGER, selects, subtype/supertype
+    records; not covered: aggregates of NUMBER, of aggregates and of selects, selects, subtype/supertype
     records in external mapping, entities without attributes, user-defined entities, scopes).  For every dictionary,
     every reader configuration in which the comment repairs are present (they are in the source: see the
     `C01_source_*` theorems), either strictness, every number of records with pairwise different ids, every layout
@@ -424,6 +545,156 @@ theorem C01_read_file_partial {F} (ops : FloatOps F) (lex : LexCfg) (cfg : RWCfg
 
 /-- in the source as it is now the three repairs are present -/
 theorem C01_source_skip_instance_skips_comments : Generated.rwCfg.skipInstanceSkipsComments = true := by decide
+
+/-! ### write ∘ read at file level -/
+
+/-- an entity keyword as the writer emits it: upper-case letters, digits and `_`, starting with a letter -/
+def KeywordName (n : String) : Prop :=
+  ∃ n0 ns, stringToBytes n = n0 :: ns ∧ isUpper n0 = true ∧ ns.all (fun c => isUpper c || isDigit c || c == 95) = true ∧
+    bytesToString (n0 :: ns) = n
+
+/-- an instance of the fragment as it sits in memory: internal mapping, a file id within `int`, a non-abstract entity
+    with at least one attribute, every value `Storable` -/
+def StorableInst {F} (env : Env F) (i : MInst F) : Prop :=
+  0 ≤ i.id ∧ i.id ≤ IStream.intMax ∧ i.complex = false ∧
+  ∃ p e, i.parts = [p] ∧ env.dict.entity? p.name = some e ∧ e.abstract = false ∧ KeywordName p.name ∧
+    StorableRec env e.attrs p.vals
+
+/-- the record `SDAI_Application_instance::STEPwrite` emits for an instance, and the new-line after its `;` -/
+def recOf {F} (ops : FloatOps F) (cfg : RWCfg) (d : Dict) (i : MInst F) : Rec F × List Byte :=
+  match i.parts with
+  | p :: _ =>
+    ({ ds := showInt i.id, s1 := [], s2 := [], n0 := (stringToBytes p.name).headD 0, ns := (stringToBytes p.name).tail, s3 := [],
+       ps := paramsOf ops cfg d (match d.entity? p.name with | some e => e.attrs | none => []) p.vals, s4 := [] }, [10])
+  | [] => ({ ds := [], s1 := [], s2 := [], n0 := 0, ns := [], s3 := [], ps := [], s4 := [] }, [])
+
+theorem upper_keeps {c : Byte} (h : (isUpper c || isDigit c || c == 95) = true) : toUpper c = c := by
+  have : isLower c = false := by simp [isUpper, isDigit, isLower] at *; bomega
+  simp [toUpper, this]
+
+theorem upper_kwc {c : Byte} (h : (isUpper c || isDigit c || c == 95) = true) : kwc c = true := by
+  simp [kwc, isAlnum, isAlpha, isUpper, isLower, isDigit] at *; bomega
+
+theorem recOf_spec {F} (env : Env F) (ops : FloatOps F) (cfg : RWCfg) (i : MInst F) (h : StorableInst env i) :
+    (recOf ops cfg env.dict i).1.Lex ∧ Seps (recOf ops cfg env.dict i).2 ∧ (recOf ops cfg env.dict i).1.id = i.id ∧
+    (∃ p e, i.parts = [p] ∧ (recOf ops cfg env.dict i).1.name = p.name ∧ env.dict.entity? p.name = some e ∧ e.abstract = false ∧
+      e.attrs = (recOf ops cfg env.dict i).1.ps.map (·.a) ∧ (recOf ops cfg env.dict i).1.ps.map (·.v) = p.vals ∧
+      ∀ q ∈ (recOf ops cfg env.dict i).1.ps, Covered env q) ∧
+    ∀ K, 35 :: (recOf ops cfg env.dict i).1.text ((recOf ops cfg env.dict i).2 ++ K) = writeInst ops cfg env.dict i ++ K := by
+  obtain ⟨h0, hhi, hcx, p, e, hparts, hent, habs, ⟨n0, ns, hnb, hn0, hns, hback⟩, hrec⟩ := h
+  obtain ⟨ds, hds, hne, hdig, hval⟩ := showInt_nonneg i.id h0
+  obtain ⟨hp1, hpa, hpv, hpc, _, hp0⟩ := paramsOf_spec env ops cfg env.dict e.attrs p.vals hrec
+  have hrec' : recOf ops cfg env.dict i =
+      ({ ds := ds, s1 := [], s2 := [], n0 := n0, ns := ns, s3 := [], ps := paramsOf ops cfg env.dict e.attrs p.vals, s4 := [] }, [10]) := by
+    simp [recOf, hparts, hent, hnb, hds]
+  rw [hrec']
+  refine ⟨⟨hne, hdig, by show ((digitsVal ds 0 : Nat) : Int) ≤ _; rw [hval]; exact hhi, Seps.blanks [] (by simp),
+    Seps.blanks [] (by simp), Seps.blanks [] (by simp), Seps.blanks [] (by simp),
+    by simp [isAlpha, hn0], all_imp (fun c hc => upper_kwc hc) _ hns, hp1⟩, Seps.blanks [10] (by decide), hval, ?_, ?_⟩
+  · refine ⟨p, e, hparts, ?_, hent, habs, hpa.symm, hpv, hpc⟩
+    show bytesToString (upperBytes (n0 :: ns)) = p.name
+    have : upperBytes (n0 :: ns) = n0 :: ns := by
+      unfold upperBytes
+      conv => rhs; rw [← List.map_id (n0 :: ns)]
+      apply List.map_congr_left
+      intro c hc
+      rcases List.mem_cons.mp hc with rfl | hc
+      · exact upper_keeps (by simp [hn0])
+      · exact upper_keeps (List.all_eq_true.mp hns c hc)
+    rw [this, hback]
+  · intro K
+    have hw : writeInst ops cfg env.dict i = 35 :: (ds ++ 61 :: (n0 :: (ns ++ 40 ::
+        (writeAttrsSimple ops cfg env.dict 0 e.attrs p.vals ++ [41, 59, 10])))) := by
+      have e3 : stringToBytes ");\n" = [41, 59, 10] := by decide
+      simp [writeInst, hcx, hparts, hent, hnb, hds, e3]
+    rw [hw]
+    have hp0' : renderParams (paramsOf ops cfg env.dict e.attrs p.vals) = writeAttrsSimple ops cfg env.dict 0 e.attrs p.vals ++ [41] := hp0.symm
+    simp [Rec.text, Rec.t1, Rec.t2, Rec.t3, Rec.t4, hp0']
+
+theorem renderRecs_write {F} (env : Env F) (ops : FloatOps F) (cfg : RWCfg) (is : List (MInst F))
+    (h : ∀ i ∈ is, StorableInst env i) (fin : List Byte) :
+    renderRecs (is.map (recOf ops cfg env.dict)) fin = is.flatMap (writeInst ops cfg env.dict) ++ fin := by
+  induction is with
+  | nil => rfl
+  | cons i t ih =>
+    obtain ⟨_, _, _, _, hw⟩ := recOf_spec env ops cfg i (h i (by simp))
+    have := hw (renderRecs (t.map (recOf ops cfg env.dict)) fin)
+    simp only [List.map_cons, List.flatMap_cons, List.append_assoc]
+    rw [← ih (fun x hx => h x (by simp [hx])), ← this]
+    cases hr : recOf ops cfg env.dict i
+    rfl
+
+/-- **read ∘ write and write ∘ read ∘ write at file level** (`_partial`: instances of `StorableInst` — internal mapping,
+    the value kinds of `Storable`; REAL/NUMBER values, enumeration items, aggregates, selects and externally mapped
+    instances as they sit in memory are not covered by this theorem, see the notes).  For every dictionary, every
+    configuration with the comment repairs, either strictness, every manager whose instances have pairwise different
+    ids and refer only to instances it holds: the data section `STEPfile::WriteData` emits (followed by the end
+    keyword) is read back by the two passes with severity NULL to exactly the instances that were written — every
+    value identical, every instance complete — and writing what was read gives the same bytes again. -/
+theorem C01_file_write_read_partial {F} (ops : FloatOps F) (lex : LexCfg) (cfg : RWCfg) (d : Dict) (strict : Bool)
+    (hskip : cfg.skipInstanceSkipsComments = true) (hcri : lex.criSkipsComments = true) (hagg : cfg.aggrSkipsComments = true)
+    (m : Mgr F) (hnd : (m.insts.map (·.id)).Nodup)
+    (hst : ∀ i ∈ m.insts, StorableInst { ops := ops, lex := lex, cfg := cfg, dict := d, lookup := Mgr.lookup d m } i) :
+    ∃ res, readDataSection ops lex cfg d strict false
+        (10 :: (m.insts.flatMap (writeInst ops cfg d) ++ (stringToBytes "ENDSEC;\n" ++ (endIso ++ [59, 10])))) = .ok res ∧
+      res.sev = .null ∧ exitStatus res.sev = 0 ∧
+      res.mgr.insts = m.insts.map (fun i => { i with state := .complete }) ∧
+      res.mgr.insts.flatMap (writeInst ops cfg d) = m.insts.flatMap (writeInst ops cfg d) := by
+  let env : Env F := { ops := ops, lex := lex, cfg := cfg, dict := d, lookup := Mgr.lookup d m }
+  let rs := m.insts.map (recOf ops cfg d)
+  have hspec : ∀ i, i ∈ m.insts →
+      (recOf ops cfg d i).1.Lex ∧ Seps (recOf ops cfg d i).2 ∧ (recOf ops cfg d i).1.id = i.id ∧
+      (∃ p e, i.parts = [p] ∧ (recOf ops cfg d i).1.name = p.name ∧ d.entity? p.name = some e ∧ e.abstract = false ∧
+        e.attrs = (recOf ops cfg d i).1.ps.map (·.a) ∧ (recOf ops cfg d i).1.ps.map (·.v) = p.vals ∧
+        ∀ q ∈ (recOf ops cfg d i).1.ps, Covered env q) ∧
+      ∀ K, 35 :: (recOf ops cfg d i).1.text ((recOf ops cfg d i).2 ++ K) = writeInst ops cfg d i ++ K :=
+    fun i hi => recOf_spec env ops cfg i (hst i hi)
+  -- the lookup pass 1 builds is the manager's own
+  have hkeys : (rs.map (mkInst d)).map keyOf = m.insts.map keyOf := by
+    simp only [rs, List.map_map]
+    apply List.map_congr_left
+    intro i hi
+    obtain ⟨_, _, hid, ⟨p, e, hparts, hname, _⟩, _⟩ := hspec i hi
+    simp [keyOf, mkInst, hid, hname, hparts]
+  have hlk : Mgr.lookup d ({ insts := rs.map (mkInst d) } : Mgr F) = Mgr.lookup d m :=
+    lookup_congr d _ m hkeys
+  have hids : rs.map (·.1.id) = m.insts.map (·.id) := by
+    simp only [rs, List.map_map]
+    apply List.map_congr_left
+    intro i hi
+    exact (hspec i hi).2.2.1
+  have hfile : (10 : Byte) :: (m.insts.flatMap (writeInst ops cfg d) ++ (stringToBytes "ENDSEC;\n" ++ (endIso ++ [59, 10]))) =
+      [10] ++ renderRecs rs (endsec [] ([10] ++ (endIso ++ 59 :: [10]))) := by
+    have e1 : stringToBytes "ENDSEC;\n" = [69, 78, 68, 83, 69, 67, 59, 10] := by decide
+    have hw : ∀ fin, renderRecs rs fin = m.insts.flatMap (writeInst ops cfg d) ++ fin :=
+      renderRecs_write env ops cfg m.insts hst
+    rw [hw, e1]
+    simp [endsec]
+  obtain ⟨res, hr, hinsts, hsev, _, hex, _⟩ := C01_read_file_partial ops lex cfg d strict hskip hcri hagg rs [10] [] [10] [10]
+    (Seps.blanks _ (by decide)) (by simp) (Seps.blanks _ (by decide)) (by rw [hids]; exact hnd)
+    (by
+      intro rg hrg
+      obtain ⟨i, hi, rfl⟩ := List.mem_map.mp hrg
+      obtain ⟨hlex, hg, _, ⟨p, e, _, hname, hent, habs, hattrs, _, hcov⟩, _⟩ := hspec i hi
+      rw [hlk]
+      exact ⟨hlex, hg, e, by rw [hname]; exact hent, habs, hattrs, hcov⟩)
+  have hres : res.mgr.insts = m.insts.map (fun i => { i with state := .complete }) := by
+    rw [hinsts]
+    simp only [rs, List.map_map]
+    apply List.map_congr_left
+    intro i hi
+    obtain ⟨_, _, hid, ⟨p, e, hparts, hname, _, _, _, hvals, _⟩, _⟩ := hspec i hi
+    obtain ⟨_, _, hcx, _⟩ := hst i hi
+    cases i with
+    | mk id parts complex state =>
+      simp only at hid hparts hcx hname hvals
+      subst hparts; subst hcx
+      simp [finInst, hid, hname, hvals]
+  refine ⟨res, by rw [hfile]; exact hr, hsev, hex, hres, ?_⟩
+  rw [hres, List.flatMap_map]
+  have : (fun i : MInst F => writeInst ops cfg d { i with state := .complete }) = writeInst ops cfg d :=
+    funext (fun i => by simp [writeInst])
+  simp only [Function.comp_def, this]
 
 /-! ### the comment defects and their repair on the minimal inputs (model level; the check replays them on the code) -/
 
